@@ -227,6 +227,22 @@ def refReplies (c : ClassSpec) (copies : Bool) : RefWorld → List RefStep → L
 
 def handle (j : Json) : Json :=
   match j with
+  | .arr #[.str "jf.dectext", .str cls, .str s] =>
+    match specOf cls with
+    | some c => exc (decodeText c anyValid Gen.Fields.neo4jNone s) (showOptFields c)
+    | none => err "bad-args"
+  | .arr #[.str "tags.dectext", .str s] =>
+    exc (tagsDecodeText (fun _ => true) s) fun
+      | none => .null
+      | some ts => Json.arr #[ofStrs ts, .str (tagsEncode ts).render]
+  | .arr #[.str "mi.dectext", .str s] =>
+    exc (minfoDecodeText Iso.isoCanon s) fun
+      | none => .null
+      | some m => Json.arr #[minfoToWire m, exc (minfoEncode m) (fun j => .str j.render)]
+  | .arr #[.str "gw.dectext", .str s] =>
+    exc (gatewayDecodeText Gen.Fields.labels anyValid Gen.Fields.neo4jNone s) (showOptFields Gen.Fields.labels)
+  | .arr #[.str "pi.dectext", .str s] => exc (pathInfoDecodeText s) (showPI pathInfoEncode)
+  | .arr #[.str "ero.dectext", .str s] => exc (eroDecodeText s) (showPI eroEncode)
   | .arr #[.str "iso", .str s] =>
     match Iso.isoCanon s with
     | some t => ok (.str t)
@@ -237,8 +253,8 @@ def handle (j : Json) : Json :=
     | none => err "value"
   | .arr #[.str "hist", .str "jd", .str cls, src, steps] =>
     match src with
-    | .arr #[.str "text", .str s, .bool valid] =>
-      match jdFromText (fun _ => valid) (maxOf cls) s with
+    | .arr #[.str "text", .str s, .bool _] =>
+      match jdFromText (fun t => (JParse.parse t).isSome) (maxOf cls) s with
       | .ok t => histRun jdGet t [.str s] steps
       | .error e => err e
     | .arr #[.str "obj", jv, _] =>       -- third element: the Python literal the implementation side builds the object from
@@ -293,8 +309,8 @@ def handle (j : Json) : Json :=
       | none => .null
       | some ts => Json.arr #[ofStrs ts, .str (tagsEncode ts).render]
     | none => err "bad-args"
-  | .arr #[.str "jd.text", .str cls, .str s, .bool valid] =>
-    exc (jdFromText (fun _ => valid) (maxOf cls) s) .str
+  | .arr #[.str "jd.text", .str cls, .str s, .bool _] =>       -- validity is the model's own `json.loads`
+    exc (jdFromText (fun t => (JParse.parse t).isSome) (maxOf cls) s) .str
   | .arr #[.str "jd.obj", .str cls, jv] =>
     match ofWire jv with
     | some v => exc (jdNew (maxOf cls) v) .str
